@@ -21,6 +21,10 @@ claim("C02",
       "Theorems findTcpMatch_eq_spec (for every record list, packet signature and max_dist the loop returns the earliest specific exact match, else the earliest generic exact, else the earliest fuzzy unless user-app), findTcpMatch_mem, direction_only, distance_eq_spec and distance_range (0..255); proved by induction over the record list with generalised accumulators. Tied to find_tcp_match/TCPResult by all orderings of 5-record sets, all 256 TTLs and random databases.",
       BASE_NOTE + "Function-level op builds Database/TCPRecord/Label objects directly; database text parsing is tied by C09.",
       "Lean 4 refinement proof by list induction + differential correspondence", "5 C02")
+claim("C13",
+      "Theorem uptime_eq_spec: for all timestamp pairs in [0,2^32) (wrap-around included), all elapsed times, all 9-bit flag values / fragment status and all thresholds in the documented domain, the integer-arithmetic model of fingerprint_uptime equals the rational-arithmetic reading of the property (ticks mod 2^32, gates, backward step, raw = ticks*1000/ms, floor, rounding, minutes, wrap days); gate_types; roundFrequency_spec for every integer. Tied to the code through real Scapy packets with time.time_ns controlled, boundary pools, exact threshold hits and round_frequency for all integers 0..3000.",
+      BASE_NOTE + "Float arithmetic is modelled by exact rationals (agreement argument in DESIGN 3.4, not a theorem; exercised on the equality cases). Threshold domain: 0 < min_scale, min_wait >= 1, grace >= 1.",
+      "Lean 4 refinement proof (integer model = rational spec, Mathlib ordered-field lemmas) + differential correspondence with controlled clock", "5 C13")
 
 ALL = [f"C{i:02d}" for i in range(1, 19)]
 checks = []
